@@ -52,3 +52,28 @@ PROPS = {
         "exhaustive": True,
     },
 }
+
+SEARCH_RULE = ("enumerated: every connect sequence (insertion order matters) on <=3 (quick) / <=4 (thorough) nodes up to the edge bound, each with every root, "
+               "every target, and reject-sets (none / each single edge; all subsets in the thorough tier); random: seeded graphs up to 40 nodes "
+               "(sparse, dense, DAG, ring, disconnected, self-loops, parallel edges). One case = one graph with all its requests; a request is "
+               "non-trivial if it runs a traversal. distinct_nontrivial = number of graph cases.")
+
+def _search(pid, oracles, theorems, text, technique):
+    PROPS[pid] = {
+        "theorems": theorems,
+        "oracles": oracles,
+        "rule": SEARCH_RULE,
+        "exhaustive": True,
+        "level_text": text,
+        "level_note": CORR_NOTE,
+        "technique": technique,
+        "design_ref": "DESIGN.md section 7, " + pid,
+    }
+
+_search("C04", ["c04"], [], "", "")
+_search("C05", ["c05"], [], "", "")
+_search("C06", ["c06"], [], "", "")
+_search("C07", ["c07"], [], "", "")
+_search("C08", ["c08"], [], "", "")
+_search("C09", ["c09"], [], "", "")
+_search("C10", ["c10"], [], "", "")
